@@ -10,6 +10,7 @@ import (
 	"path/filepath"
 	"sort"
 	"strconv"
+	"time"
 
 	"github.com/douban/gobeansdb/quicklz"
 	"github.com/douban/gobeansdb/verifkit"
@@ -43,6 +44,10 @@ type Op struct {
 	ViaAPI bool `json:"api,omitempty"`
 	// gcpark: client operations placed at chosen steps of a GC pass that runs in its own goroutine
 	Places []Placement `json:"places,omitempty"`
+	// gcreq (C17): a request through HStore.GC with arbitrary arguments
+	NoGCDays int    `json:"nogcdays,omitempty"`
+	Pretend  bool   `json:"pretend,omitempty"`
+	Double   string `json:"double,omitempty"` // "" | "parked" | "backtoback": a second request for the same bucket
 }
 
 // Placement parks the GC goroutine at the Nth occurrence of a hook point and runs Ops on the client thread meanwhile.
@@ -149,6 +154,7 @@ type histRunner struct {
 	inGrp  []bool
 
 	lastResolved Op
+	fresh        bool // C17: new records carry a timestamp one hour in the past instead of 1970
 	clientWritesInGC int
 	preGC        []*mkey
 	curOp        int
@@ -168,6 +174,15 @@ type histRunner struct {
 }
 
 func (r *histRunner) label(l string) { r.labels[l] = true }
+
+// stamp returns the timestamp of the next record: 1970-based counters by default (always "old"), or one hour
+// in the past once the history switched to fresh records (C17's age rule; far from any whole-day boundary).
+func (r *histRunner) stamp() uint32 {
+	if r.fresh {
+		return uint32(time.Now().Unix() - 3600)
+	}
+	return r.ts
+}
 
 func newRunner(h *History, opts runOpts) *histRunner {
 	r := &histRunner{h: h, opts: opts, labels: map[string]bool{}, reads: map[string]int{}, ts: 1000, excluded: map[string]int{}, prevVals: map[int][]prevVal{}, staleOK: map[int]string{}, readsAny: map[string]int{}, wroteUnserved: map[int]bool{}}
@@ -397,7 +412,7 @@ func (r *histRunner) doSet(op *Op) error {
 	}
 	_, served := r.bucketOf(key)
 	r.ts++
-	err := r.store.Set(newKI(key), newPayload(val, op.Flag, op.Rev, r.ts))
+	err := r.store.Set(newKI(key), newPayload(val, op.Flag, op.Rev, r.stamp()))
 	if err != nil {
 		return fmt.Errorf("Set(%q, rev %d) returned error %v", key, op.Rev, err)
 	}
@@ -559,7 +574,7 @@ func (r *histRunner) doDelete(op *Op) error {
 	m := r.model[op.K]
 	_, served := r.bucketOf(key)
 	r.ts++
-	err := r.store.Set(newKI(key), newDeletePayload(r.ts))
+	err := r.store.Set(newKI(key), newDeletePayload(r.stamp()))
 	if !served {
 		if err != nil {
 			return fmt.Errorf("delete of %q in an unserved bucket returned %v", key, err)
@@ -1032,6 +1047,11 @@ func (r *histRunner) step(i int, op *Op) error {
 		return r.doGC(op)
 	case "gcpark":
 		return r.doGCPark(op)
+	case "gcreq":
+		return r.doGCRequest(op)
+	case "freshen":
+		r.fresh = true
+		return nil
 	}
 	return infraf("unknown op %q", op.Kind)
 }
@@ -1100,7 +1120,7 @@ func (r *histRunner) run() (err error) {
 			if e := r.checkGet(op.K, "read-after-write"); e != nil {
 				return fmt.Errorf("op %d %s: %v", i, opString(op, &r.h.Cfg), e)
 			}
-		case "reopen", "gc", "merge", "gcpark":
+		case "reopen", "gc", "merge", "gcpark", "gcreq":
 			if e := r.sweep("sweep after " + op.Kind); e != nil {
 				return fmt.Errorf("op %d %s: %v", i, opString(op, &r.h.Cfg), e)
 			}
